@@ -36,6 +36,34 @@ theorem runN_append (a b : List BLine) (c : Cfg) :
 def advB (s : St) (new : List BLine) (n : Nat) : St :=
   { s with globalCode := new ++ s.globalCode, varCounter := s.varCounter + n }
 
+/-- the three lines that define `LF` -/
+def lfLine (l : BLine) : Bool := l == .raw "(set LF=^" || l == .raw "" || l == .raw ")"
+
+/-- what a translation step of the scalar fragment leaves alone outside the code buffers: no helper routine other than the
+    echo routine is requested, and the start code only grows by the definition of `LF` -/
+def EnvExt (s s' : St) : Prop :=
+  (s'.fwhReq = s.fwhReq ∧ s'.appCallReq = s.appCallReq ∧ s'.readReq = s.readReq ∧ s'.schReq = s.schReq ∧ s'.sahReq = s.sahReq ∧
+    s'.slsReq = s.slsReq ∧ s'.slgReq = s.slgReq ∧ s'.stshReq = s.stshReq ∧ s'.stlhReq = s.stlhReq) ∧
+  ∃ extra, s'.startCode = extra ++ s.startCode ∧ ∀ l ∈ extra, lfLine l = true
+
+theorem EnvExt.refl (s : St) : EnvExt s s := ⟨⟨rfl, rfl, rfl, rfl, rfl, rfl, rfl, rfl, rfl⟩, [], rfl, by simp⟩
+
+theorem EnvExt.trans {a b c : St} (h1 : EnvExt a b) (h2 : EnvExt b c) : EnvExt a c := by
+  obtain ⟨⟨a1, a2, a3, a4, a5, a6, a7, a8, a9⟩, e1, s1, p1⟩ := h1
+  obtain ⟨⟨b1, b2, b3, b4, b5, b6, b7, b8, b9⟩, e2, s2, p2⟩ := h2
+  refine ⟨⟨b1.trans a1, b2.trans a2, b3.trans a3, b4.trans a4, b5.trans a5, b6.trans a6, b7.trans a7, b8.trans a8, b9.trans a9⟩,
+    e2 ++ e1, by rw [s2, s1, List.append_assoc], ?_⟩
+  intro l hl
+  rcases List.mem_append.mp hl with h | h
+  · exact p2 l h
+  · exact p1 l h
+
+/-- equal flags and equal start code -/
+theorem EnvExt.of_eq {s s' : St} (h1 : s'.fwhReq = s.fwhReq) (h2 : s'.appCallReq = s.appCallReq) (h3 : s'.readReq = s.readReq)
+    (h4 : s'.schReq = s.schReq) (h5 : s'.sahReq = s.sahReq) (h6 : s'.slsReq = s.slsReq) (h7 : s'.slgReq = s.slgReq)
+    (h8 : s'.stshReq = s.stshReq) (h9 : s'.stlhReq = s.stlhReq) (hs : s'.startCode = s.startCode) : EnvExt s s' :=
+  ⟨⟨h1, h2, h3, h4, h5, h6, h7, h8, h9⟩, [], by simp [hs], by simp⟩
+
 /-- `s'` is `s` with new global lines and `n` more helper variables, still outside every function (the start code and
     the helper flags may differ: a string literal requests the `LF` definition) -/
 structure Adv (s s' : St) (new : List BLine) (n : Nat) : Prop where
@@ -50,18 +78,20 @@ structure Adv (s s' : St) (new : List BLine) (n : Nat) : Prop where
   icnt : s'.ifCounter = s.ifCounter
   /-- the new lines are not structural: they carry no block bracket, no construct label and no construct jump -/
   plain : ∀ l ∈ new, plainB l = true
+  env : EnvExt s s'
 
-theorem Adv.refl (s : St) : Adv s s [] 0 := ⟨rfl, rfl, rfl, rfl, rfl, rfl, rfl, rfl, rfl, by simp⟩
+theorem Adv.refl (s : St) : Adv s s [] 0 := ⟨rfl, rfl, rfl, rfl, rfl, rfl, rfl, rfl, rfl, by simp, EnvExt.refl s⟩
 
 theorem Adv.trans {s s1 s2 : St} {a b : List BLine} {m n : Nat} (h1 : Adv s s1 a m) (h2 : Adv s1 s2 b n) :
     Adv s s2 (b ++ a) (m + n) :=
   ⟨by rw [h2.code, h1.code, List.append_assoc], by rw [h2.cnt, h1.cnt, Nat.add_assoc], by rw [h2.funcs, h1.funcs],
    by rw [h2.fcode, h1.fcode], by rw [h2.fors, h1.fors], by rw [h2.ends, h1.ends], by rw [h2.ifs, h1.ifs],
    by rw [h2.fcnt, h1.fcnt], by rw [h2.icnt, h1.icnt],
-   fun l hl => by rcases List.mem_append.mp hl with h | h; exact h2.plain l h; exact h1.plain l h⟩
+   fun l hl => by rcases List.mem_append.mp hl with h | h; exact h2.plain l h; exact h1.plain l h,
+   h1.env.trans h2.env⟩
 
 theorem Adv.ofAdvB (s : St) (new : List BLine) (n : Nat) (hp : ∀ l ∈ new, plainB l = true) : Adv s (advB s new n) new n :=
-  ⟨rfl, rfl, rfl, rfl, rfl, rfl, rfl, rfl, rfl, hp⟩
+  ⟨rfl, rfl, rfl, rfl, rfl, rfl, rfl, rfl, rfl, hp, EnvExt.of_eq rfl rfl rfl rfl rfl rfl rfl rfl rfl rfl⟩
 
 theorem HoldsD.mono {t v : String} {k k' : Nat} {ρ ρ' : Store} (h : HoldsD t v k ρ) (hk : k ≤ k')
     (hf : ∀ x, (∀ j, k ≤ j → x ≠ helperName j) → ρ' x = ρ x) : HoldsD t v k' ρ' := by
